@@ -730,6 +730,14 @@ class Flow:
         if name in STORE_WRITERS and isinstance(f, ast.Attribute):
             self.stores.append((fn, e, args[0] if args else None, st.in_loop))
         if isinstance(f, ast.Name):
+            if name == "_calculate_minimum_candle_step" and not args and not kws:
+                # the chunk length: a function of the routes alone (C07-R8 / C12-R3 decide that it is the gcd of the route
+                # timeframes and of a day) - one symbol for every call, known to be >= 1 and NOT known to be 1
+                if getattr(self, "_chunk_atom", None) is None:
+                    self._chunk_atom = self.fresh("chunk_step", opaque=False)
+                if not any(f_ is not None and f_ == self._chunk_atom - Poly.const(1) for f_ in st.facts):
+                    st.facts.append(self._chunk_atom - Poly.const(1))
+                return self._chunk_atom
             if name == "len":
                 return self.fresh("len", opaque=False) if False else None
             if name == "int" and len(args) == 1:
